@@ -302,7 +302,7 @@ def draw_call(rng, g, bounds, pos, rel):
             return how, (v,), {}, "feed-rate", cls, ok, False
         if how == "probe":
             return "probe", ("towards",), {"F": v}, "feed-rate", cls, ok and here_ok(), True
-        return how, (), {"F": v}, "feed-rate", cls, ok and here_ok(), True
+        return how, (), {rng.choice(["F", "F", "f"]): v}, "feed-rate", cls, ok and here_ok(), True
     if kind == "power":
         v, cls, inside = scalar("tool-power", (0, 24000))
         ok = inside and v >= 0
@@ -315,7 +315,7 @@ def draw_call(rng, g, bounds, pos, rel):
             return how, (rng.choice(["constant", "dynamic"]), v), {}, "tool-power", cls, ok, False
         if how == "probe":
             return "probe", ("away",), {"S": v}, "tool-power", cls, ok and here_ok(), True
-        return "move", (), {"S": v}, "tool-power", cls, ok and here_ok(), True
+        return "move", (), {rng.choice(["S", "S", "s"]): v}, "tool-power", cls, ok and here_ok(), True
     if kind == "toolnum":
         lo, hi = bounds.get("tool-number", (1, 99))
         v, cls = value_class(rng, lo, hi, integer=True)
@@ -329,7 +329,7 @@ def draw_call(rng, g, bounds, pos, rel):
         setter, wait = TEMP[prop][:2]
         if rng.random() < 0.5:
             return setter, (v,), {}, prop, cls, inside, False
-        return "halt", (wait,), {rng.choice(["S", "R"]): v}, prop, cls, inside, False
+        return "halt", (wait,), {rng.choice(["S", "R", "s", "r"]): v}, prop, cls, inside, False
 
     # motion ------------------------------------------------------------
     raw = pos
